@@ -364,10 +364,16 @@ def real_expand(case):
         sg, _ = L.build(e["sub"])
         if e["imap"] is None and e["omap"] is None and e.get("bare"):
             return sg
+        if e.get("shape") == 1:
+            return (sg,)
+        if e.get("shape") == 2:
+            return (sg, dict(map(tuple, e["imap"])) if e["imap"] is not None else None)
         return (sg, dict(map(tuple, e["imap"])) if e["imap"] is not None else None,
                 dict(map(tuple, e["omap"])) if e["omap"] is not None else None)
 
     try:
+        if any(e.get("shape") in (1, 2) for nm, e in table.items() if any(n["name"] == nm for n in ag["nodes"])):
+            raise Invalid("the expander answers with a 1- or 2-tuple (documented: None, a Graph or a 3-tuple)")
         want = expected_expand(ag, table)
     except Invalid as e:
         want = None
@@ -684,7 +690,7 @@ def shrink(case, kind, budget=600):
 # ----------------------------------------------------------------------------- generation
 
 def gen_case(rng, t, nmax, adversarial=True):
-    unique = t in ("split", "expand") or rng.random() < 0.85
+    unique = t in ("split", "expand") or rng.random() < (0.7 if t in ("dedup", "fuse") else 0.85)
     ag = L.gen_graph(rng, nmax, adversarial=adversarial, unique_names=unique)
     case = {"t": t, "g": ag}
     names = [n["name"] for n in ag["nodes"]]
@@ -693,7 +699,10 @@ def gen_case(rng, t, nmax, adversarial=True):
         tab = []
         for nm in sorted(set(names)):
             if rng.random() < 0.3:
-                tab.append([nm, rng.choice(["x", "main", nm + ".", rng.choice(names), "zz" + nm])])
+                other = rng.choice(ag["nodes"])
+                tab.append([nm, rng.choice(["x", "main", nm + ".", rng.choice(names), "zz" + nm,
+                                            other["name"] + "." + rng.choice(other["outputs"] + ["0"]),
+                                            rng.choice(other["outputs"] + [k for k, _, _ in other["inputs"]] + ["0"])])])
         case["table"] = tab
     if t == "fuse":
         if rng.random() < 0.6:
@@ -705,26 +714,44 @@ def gen_case(rng, t, nmax, adversarial=True):
         exp = []
         for n in ag["nodes"]:
             if rng.random() < 0.35:
-                exp.append([n["name"], gen_expansion(rng, n, adversarial=adversarial)])
+                exp.append([n["name"], gen_expansion(rng, n, adversarial=adversarial, ag=ag)])
         if not exp:
             n = rng.choice(ag["nodes"])
-            exp.append([n["name"], gen_expansion(rng, n, adversarial=adversarial)])
+            exp.append([n["name"], gen_expansion(rng, n, adversarial=adversarial, ag=ag)])
         case["exp"] = exp
     if t == "split":
-        nk = rng.randint(1, 3)
+        nk = rng.randint(1, 4)
         case["default"] = 0
         case["keys"] = [[nm, rng.randrange(nk)] for nm in names if rng.random() < 0.8]
+        if rng.random() < 0.3:
+            # keys by role: producers whose outputs render alike (`<node>.<output>` collisions) in one part, their
+            # consumers spread over the others, so that the colliding edges are the ones that are cut
+            cons = {j for n in ag["nodes"] for _, j, _ in n["inputs"]}
+            case["keys"] = [[n["name"], 0 if i in cons else rng.randint(1, max(1, nk - 1))] for i, n in enumerate(ag["nodes"])]
     return case
 
 
 LEAF_NAMES = ["mean", "m", "a", "main", "n", "i", "ma.in", ".x", "leaf", "out", "w", "0", "a.b", "nim", "x"]
+SUB_MISC = ["src", "reader", "s", "in", "free", "const", "f", "proc", "p", "mid", "process-0", "inner", "writer", "dump", "input"]
 
 
-def gen_expansion(rng, node, adversarial=True):
-    """A sub-graph + maps for outer node `node` (mostly meaningful: every output has a leaf)."""
+def gen_expansion(rng, node, adversarial=True, ag=None):
+    """A sub-graph + maps for outer node `node` (mostly meaningful: every output has a leaf).
+
+    Names of ALL sub-graph nodes (sources, inner nodes, leaves, extra sinks) come from one pool: the expanded
+    node's input names, its output names, its own name, the parent graph's node names, `<node>.<x>` forms and
+    a few plain words.  Input map: None (sources matched by name), explicit (full / partial / empty / two
+    sources on one input), with independent sources NOT in the map that may be named like an input of the
+    node.  Output map: None, explicit, partial, two outputs on one leaf, keys that are no outputs.
+    Shape of the expander's answer: bare Graph, 3-tuple, and (rarely) 1-/2-tuples (not a documented shape)."""
     inames = [k for k, _, _ in node["inputs"]]
+    onames = list(node["outputs"])
+    gnames = ([n["name"] for n in ag["nodes"]] if ag else []) + [node["name"]]
     pool_in = L.INPUT_NAMES if adversarial else L.PLAIN_INPUT_NAMES
     outsets = [["0"], ["0"], ["o1", "o2"], ["0", "1"]] + ([["name"], ["leaves", "0"], ["payload"]] if adversarial else [])
+    if adversarial and onames:
+        outsets = outsets + [list(onames)]
+    derived = [node["name"] + "." + x for x in inames + onames + ["0"]] + [x + ".0" for x in inames + onames]
     nodes = []
     used = set()
 
@@ -737,36 +764,67 @@ def gen_expansion(rng, node, adversarial=True):
         used.add(nm)
         return nm
 
-    use_imap = rng.random() < 0.5
+    def pick(bias_inputs=False):
+        r = rng.random()
+        if adversarial:
+            if bias_inputs and inames and r < 0.6:
+                return rng.choice(inames)
+            if r < 0.25 and inames:
+                return rng.choice(inames)
+            if r < 0.40 and onames:
+                return rng.choice(onames)
+            if r < 0.55:
+                return rng.choice(gnames)
+            if r < 0.65:
+                return rng.choice(derived)
+            if r < 0.80:
+                return rng.choice(LEAF_NAMES)
+        return rng.choice(SUB_MISC)
+
+    def source(nm):
+        nodes.append({"name": nm, "outputs": list(rng.choice(outsets)), "payload": rng.randint(0, 4), "inputs": []})
+
+    use_imap = rng.random() < 0.55
     imap = [] if use_imap else None
+    p_map = rng.choice([0.0, 0.4, 0.75, 0.75, 1.0])       # empty / partial / full maps
     for k in inames:
-        if rng.random() < 0.75:
+        if rng.random() < p_map:
             if use_imap:
-                nm = fresh(rng.choice(["src", "reader", "s", k, "in"]))
+                nm = fresh(pick())
                 imap.append([nm, k])
+                source(nm)
+                if rng.random() < 0.1:                     # a second source on the same input
+                    nm = fresh(pick())
+                    imap.append([nm, k])
+                    source(nm)
             else:
                 nm = fresh(k)
                 if nm != k:
+                    used.discard(nm)
                     continue
-            nodes.append({"name": nm, "outputs": list(rng.choice(outsets)), "payload": rng.randint(0, 4), "inputs": []})
-    if rng.random() < 0.3 or not nodes:
-        nodes.append({"name": fresh(rng.choice(["free", "const", "f"])), "outputs": list(rng.choice(outsets)), "payload": rng.randint(0, 4), "inputs": []})
+                source(nm)
+    # independent sources: not in the explicit map (may be NAMED like an input), or not named like an input
+    for _ in range(rng.choice([0, 1, 1, 2]) if nodes else rng.choice([1, 1, 2])):
+        source(fresh(pick(bias_inputs=use_imap)))
     if use_imap and rng.random() < 0.04:
         imap.append([fresh("ghost"), "no-such-input"])        # invalid: KeyError
-    for _ in range(rng.randint(0, 2)):
+    for _ in range(rng.choice([0, 0, 1, 1, 2, 3])):
         cands = [(j, o) for j, x in enumerate(nodes) for o in x["outputs"]]
+        if not cands:
+            break
         ks = rng.sample(pool_in, rng.randint(1, min(2, len(cands))))
-        nodes.append({"name": fresh(rng.choice(["proc", "p", "mid", "process-0"])), "outputs": list(rng.choice(outsets)),
+        nodes.append({"name": fresh(pick()), "outputs": list(rng.choice(outsets)),
                       "payload": rng.randint(0, 4), "inputs": [[kn] + list(rng.choice(cands)) for kn in ks]})
     use_omap = rng.random() < 0.6
     omap = [] if use_omap else None
+    p_list = rng.choice([0.3, 0.8, 0.8, 1.0])               # partial / full output maps
     leaves = {}
     for o in node["outputs"]:
         if use_omap and leaves and rng.random() < 0.15:
             omap.append([o, rng.choice(list(leaves))])      # two outputs share one leaf
             continue
-        if use_omap and rng.random() < 0.8:
-            ln = fresh(rng.choice(LEAF_NAMES) if adversarial else rng.choice(["leaf", "out", "w"]))
+        if use_omap and rng.random() < p_list:
+            ln = fresh(pick())
             omap.append([o, ln])
         else:
             ln = fresh(o)
@@ -777,27 +835,77 @@ def gen_expansion(rng, node, adversarial=True):
                     used.discard(ln)
                     continue      # cannot give this output a leaf without a map: left unmapped (invalid if consumed)
         cands = [(j, oo) for j, x in enumerate(nodes) for oo in x["outputs"]]
-        ks = rng.sample(pool_in, rng.randint(1, min(2, len(cands))))
         kind = rng.random()
         outs = [] if kind < 0.8 else (["0"] if kind < 0.95 else ["o1"])
-        nodes.append({"name": ln, "outputs": outs, "payload": rng.randint(0, 4), "inputs": [[kn] + list(rng.choice(cands)) for kn in ks]})
+        if not cands or rng.random() < 0.05:
+            # a leaf that is a source of the sub-graph as well (only meaningful with a default output)
+            nodes.append({"name": ln, "outputs": ["0"] if kind < 0.9 else [], "payload": rng.randint(0, 4), "inputs": []})
+        else:
+            ks = rng.sample(pool_in, rng.randint(1, min(2, len(cands))))
+            nodes.append({"name": ln, "outputs": outs, "payload": rng.randint(0, 4), "inputs": [[kn] + list(rng.choice(cands)) for kn in ks]})
         leaves[ln] = len(nodes) - 1
-    if rng.random() < 0.25:
+    if use_omap and rng.random() < 0.12:
+        omap.append([fresh("no-such-output"), rng.choice(list(leaves) + [pick()])])     # key that is no output: ignored
+    if use_omap and omap:
+        rng.shuffle(omap)
+    for _ in range(rng.choice([0, 0, 0, 1, 1, 2])):
         cands = [(j, oo) for j, x in enumerate(nodes) for oo in x["outputs"]]
         if cands:
-            nodes.append({"name": fresh(rng.choice(["inner", "writer", "dump"])), "outputs": [], "payload": rng.randint(0, 4),
+            nodes.append({"name": fresh(pick()), "outputs": [] if rng.random() < 0.8 else ["0"], "payload": rng.randint(0, 4),
                           "inputs": [[rng.choice(pool_in)] + list(rng.choice(cands))]})
     consumed = {j for x in nodes for _, j, _ in x["inputs"]}
     sinks = [i for i in range(len(nodes)) if i not in consumed]
     for ln, i in leaves.items():
         if i not in sinks:
             sinks.append(i)
+    for i in range(len(nodes)):
+        if i not in sinks and rng.random() < 0.06:
+            sinks.append(i)                                   # a non-terminal node of the sub-graph that is a sink too
     rng.shuffle(sinks)
     sub = L.normalise({"nodes": nodes, "sinks": sinks})
     e = {"sub": sub, "imap": imap, "omap": omap}
     if imap is None and omap is None and rng.random() < 0.5:
         e["bare"] = True
+    elif rng.random() < 0.02:
+        e["shape"] = rng.choice([1, 2])                      # (graph,) / (graph, input_map): not a documented answer
     return e
+
+
+def expansion_features(case):
+    """Counters for the evidence distribution: which corners of the expander domain a case touches."""
+    f = collections.Counter()
+    byname = {n["name"]: n for n in case["g"]["nodes"]}
+    gnames = set(byname)
+    for nm, e in case.get("exp", []):
+        n = byname.get(nm)
+        if n is None:
+            continue
+        inames = {k for k, _, _ in n["inputs"]}
+        sub = e["sub"]
+        f["exp:shape:" + ("bare" if e.get("bare") else str(e.get("shape", 3)) + "-tuple")] += 1
+        f["exp:imap:" + ("none" if e["imap"] is None else "empty" if not e["imap"] else
+                         "full" if {b for _, b in e["imap"]} >= inames else "partial")] += 1
+        outs = set(n["outputs"])
+        f["exp:omap:" + ("none" if e["omap"] is None else "empty" if not e["omap"] else
+                         "full" if {a for a, _ in e["omap"]} >= outs else "partial")] += 1
+        mapped = None if e["imap"] is None else {a for a, _ in e["imap"]}
+        for m in sub["nodes"]:
+            if not m["inputs"]:
+                if mapped is not None and m["name"] not in mapped:
+                    f["exp:independent_source"] += 1
+                    if m["name"] in inames:
+                        f["exp:independent_source_named_like_input"] += 1
+                elif mapped is None and m["name"] not in inames:
+                    f["exp:independent_source"] += 1
+            elif m["name"] in inames:
+                f["exp:inner_node_named_like_input"] += 1
+            if m["name"] in outs:
+                f["exp:sub_node_named_like_output"] += 1
+            if m["name"] in gnames:
+                f["exp:sub_node_named_like_outer_node"] += 1
+            if nm + "." + m["name"] in gnames:
+                f["exp:spliced_name_equals_outer_node"] += 1
+    return f
 
 
 def _nontrivial(ag):
@@ -874,6 +982,9 @@ def correspond(ctx):
             ctx.count("impl_error:" + str(out["err"]))
         for k, v in out.get("stats", {}).items():
             ctx.count(k, v)
+        if case["t"] == "expand":
+            for k, v in expansion_features(case).items():
+                ctx.count(k, v)
         for fl in fails:
             key = (case["t"], fl["kind"])
             if key in reported and len(reported) > 0 and ctx.dist.get("viol:" + "/".join(key), 0) >= 3:
